@@ -22,9 +22,9 @@ func init() {
 	// seek
 	add("c03-seek-rel-is-abs", "C03.seek", dec, "func (d *D) TrySeekRel(delta int64, fns ...func(d *D)) (int64, error) {\n\treturn d.trySeekAbs(d.Pos()+delta, fns...)", "func (d *D) TrySeekRel(delta int64, fns ...func(d *D)) (int64, error) {\n\treturn d.trySeekAbs(delta, fns...)", "TrySeekRel:target")
 	add("c03-seek-abs-is-rel", "C03.seek", dec, "func (d *D) SeekAbs(pos int64, fns ...func(d *D)) int64 {\n\tn, err := d.trySeekAbs(pos, fns...)", "func (d *D) SeekAbs(pos int64, fns ...func(d *D)) int64 {\n\tn, err := d.trySeekAbs(d.Pos()+pos, fns...)", "SeekAbs:target")
-	add("c03-seek-whence", "C03.seek", dec, "\tpos, err := d.bitBuf.SeekBits(pos, io.SeekStart)", "\tpos, err := d.bitBuf.SeekBits(pos, io.SeekCurrent)", "trySeekAbs:seek")
+	add("c03-seek-whence", "C03.seek", dec, "\tpos, err = d.bitBuf.SeekBits(pos, io.SeekStart)", "\tpos, err = d.bitBuf.SeekBits(pos, io.SeekCurrent)", "trySeekAbs:seek")
 	add("c03-seek-restore-to-target", "C03.seek", dec, "\t\t_, err := d.bitBuf.SeekBits(oldPos, io.SeekStart)", "\t\t_, err := d.bitBuf.SeekBits(oldPos+pos-oldPos, io.SeekStart)", "trySeekAbs:restore")
-	add("c03-seek-save-after-seek", "C03.seek", dec, "\tvar oldPos int64\n\tif len(fns) > 0 {\n\t\toldPos = d.Pos()\n\t}\n\n\tpos, err := d.bitBuf.SeekBits(pos, io.SeekStart)\n\tif err != nil {\n\t\treturn 0, err\n\t}\n", "\tvar oldPos int64\n\n\tpos, err := d.bitBuf.SeekBits(pos, io.SeekStart)\n\tif err != nil {\n\t\treturn 0, err\n\t}\n\tif len(fns) > 0 {\n\t\toldPos = d.Pos()\n\t}\n", "trySeekAbs:restore")
+	add("c03-seek-save-after-seek", "C03.seek", dec, "\tvar oldPos int64\n\tif len(fns) > 0 {\n\t\toldPos = d.Pos()\n\t}\n", "\tvar oldPos int64\n\tdefer func() {\n\t\tif len(fns) > 0 {\n\t\t\toldPos = d.Pos()\n\t\t}\n\t}()\n", "trySeekAbs:restore")
 	add("c03-seek-window-args-swapped", "C03.seek", dec, "func (d *D) TryBitBufRange(firstBit int64, nBits int64) (bitio.ReaderAtSeeker, error) {\n\treturn bitiox.Range(d.bitBuf, firstBit, nBits)", "func (d *D) TryBitBufRange(firstBit int64, nBits int64) (bitio.ReaderAtSeeker, error) {\n\treturn bitiox.Range(d.bitBuf, nBits, firstBit)", "TryBitBufRange:window")
 	add("c03-seek-bitsleft-negated", "C03.seek", dec, "\treturn bLen - bPos, nil", "\treturn bPos - bLen, nil", "TryBitsLeft")
 	add("c03-seek-len-other-reader", "C03.seek", dec, "func (d *D) TryLen() (int64, error) {\n\treturn bitiox.Len(d.bitBuf)", "func (d *D) TryLen() (int64, error) {\n\treturn bitiox.Len(d.Value.RootReader)", "TryLen")
@@ -37,9 +37,11 @@ func init() {
 	add("c03-sub-format-errors-unchecked", "C03.sub", dec, "\tif dv == nil || dv.Errors() != nil {\n\t\td.IOPanic(err, \"\", \"Format: decode\")", "\tif dv == nil {\n\t\td.IOPanic(err, \"\", \"Format: decode\")", "Format:adopt-after-test")
 	add("c03-sub-len-test-after-link", "C03.sub", dec, "\tif dv == nil || dv.Errors() != nil {\n\t\treturn nil, nil, err\n\t}\n\n\td.AddChild(dv)\n\tif _, err := d.bitBuf.SeekBits(nBits, io.SeekCurrent); err != nil {", "\tif dv == nil {\n\t\treturn nil, nil, err\n\t}\n\n\td.AddChild(dv)\n\tif dv.Errors() != nil {\n\t\treturn nil, nil, err\n\t}\n\tif _, err := d.bitBuf.SeekBits(nBits, io.SeekCurrent); err != nil {", "TryFieldFormatLen:adopt-after-test")
 	add("c03-cover-range-nofill", "C03.cover", dec, "\t\tFillGaps:    true,\n\t\tIsRoot:      false,\n\t\tRange:       ranges.Range{Start: firstBit, Len: nBits},", "\t\tFillGaps:    false,\n\t\tIsRoot:      false,\n\t\tRange:       ranges.Range{Start: firstBit, Len: nBits},", "TryFieldFormatRange:FillGaps")
-	// inside: a zero-length fast path in front of the remaining-input test
-	add("c03-inside-text-zero-fastpath", "C03.inside", "pkg/decode/read.go", "\tbytesLeft := d.BitsLeft() / 8\n\tif int64(nBytes) > bytesLeft {\n\t\treturn \"\", fmt.Errorf(\"tryText nBytes", "\tif nBytes == 0 {\n\t\treturn \"\", nil\n\t}\n\tbytesLeft := d.BitsLeft() / 8\n\tif int64(nBytes) > bytesLeft {\n\t\treturn \"\", fmt.Errorf(\"tryText nBytes", "left-guards-every-success|(*pkg/decode.D).tryText")
-	add("c03-inside-nulllen-test-skipped-for-zero", "C03.inside", "pkg/decode/read.go", "\tif int64(fixedBytes) > bytesLeft {\n\t\treturn \"\", fmt.Errorf(\"tryTextNullLen", "\tif int64(fixedBytes) > bytesLeft && fixedBytes > 0 {\n\t\treturn \"\", fmt.Errorf(\"tryTextNullLen", "left-guards-every-success|(*pkg/decode.D).tryTextNullLen")
+	// inside: the bound test of the seek is gone / weakened / placed after the seek; an unclassified position move
+	add("c03-inside-seek-unbounded", "C03.inside", dec, "\tif pos > l {\n\t\treturn 0, fmt.Errorf(\"seek to %d outside buffer, length %d\", pos, l)\n\t}\n", "\t_ = l\n", "trySeekAbs:inside-buffer")
+	add("c03-inside-seek-bound-only-with-fns", "C03.inside", dec, "\tif pos > l {\n\t\treturn 0, fmt.Errorf(\"seek to %d outside buffer", "\tif pos > l && len(fns) > 0 {\n\t\treturn 0, fmt.Errorf(\"seek to %d outside buffer", "trySeekAbs:inside-buffer")
+	add("c03-inside-stray-seek", "C03.inside", dec, "func (d *D) AssertPos(pos int64) {", "func (d *D) SkipTo(pos int64) {\n\t_, _ = d.bitBuf.SeekBits(pos, io.SeekStart)\n}\n\nfunc (d *D) AssertPos(pos int64) {", "move|(*pkg/decode.D).SkipTo")
+	add("c03-inside-foreign-reader", "C03.inside", dec, "func (d *D) AssertPos(pos int64) {", "func (d *D) SwapReader(br bitio.ReaderAtSeeker) {\n\td.bitBuf = br\n}\n\nfunc (d *D) AssertPos(pos int64) {", "bitbuf|(*pkg/decode.D).SwapReader")
 	// readers: a leaf reader reads the byte-rounded buffer instead of the bits asked for
 	add("c03-readers-bigint-reads-whole-bytes", "C03.readers", "pkg/decode/read.go", "\t_, err := bitio.ReadFull(d.bitBuf, buf, int64(nBits))\n\tif err != nil {\n\t\treturn nil, err\n\t}", "\t_, err := bitio.ReadFull(d.bitBuf, buf, int64(len(buf))*8)\n\tif err != nil {\n\t\treturn nil, err\n\t}", "tryBigIntEndianSign:read")
 	// generalised forms must still decide: compare-and-select minimum with the wrong direction
